@@ -45,6 +45,8 @@ func NewBarrier(count int, f func(msgTs uint64, b *Barrier), u func(vchannel str
 		for current < barrier.Dest {
 			select {
 			case <-barrier.CloseChan:
+				// closed (the collection is no longer read): nothing left to wait for
+				return
 			case signal := <-barrier.BarrierSignalChan:
 				util.VerifPoint("barrier.signal", signal.VChannel)
 				if u != nil {
